@@ -65,6 +65,13 @@ type sim struct {
 	trace   []map[string]any
 	returned bool
 	returnedLoop map[int]bool
+	// burst mode: datagrams are queued in the socket and ReadFrom hands them out without a scheduler in between
+	// (real parallelism between the loop and its handler goroutines)
+	burst       bool
+	burstReads  []int
+	burstSpawns []map[string]any
+	burstFin    []map[string]any
+	burstWG     sync.WaitGroup
 }
 
 // the stock loggers write to os.Stderr as it is when the option is built: silence it for this test process
@@ -111,6 +118,19 @@ var errClosed = errors.New("use of closed network connection")
 var errRead = errors.New("read: connection refused")
 
 func (s *sim) ReadFrom(b []byte) (int, net.Addr, error) {
+	if s.burst {
+		s.mu.Lock()
+		if len(s.q) == 0 {
+			s.mu.Unlock()
+			<-s.closeCh
+			return 0, nil, errClosed
+		}
+		d := s.q[0]
+		s.q = s.q[1:]
+		s.burstReads = append(s.burstReads, d.id)
+		s.mu.Unlock()
+		return copy(b, d.b), s.senderAddr(d), nil
+	}
 	s.mu.Lock()
 	lp := s.loopOf[goid()]
 	dl := s.deliver[lp]
@@ -200,6 +220,36 @@ func (s *sim) peerDesc(d *dgram, peer net.Addr) map[string]any {
 }
 
 func (s *sim) handle(conn net.PacketConn, peer net.Addr, enc func() []byte) {
+	if s.burst {
+		s.burstWG.Add(1)
+		defer s.burstWG.Done()
+		b := enc()
+		id := -1
+		var d *dgram
+		s.mu.Lock()
+		for _, x := range s.all {
+			if x.kind == "valid" && string(x.b) == string(b) {
+				id, d = x.id, x
+			}
+		}
+		s.mu.Unlock()
+		if d == nil {
+			s.mu.Lock()
+			s.burstSpawns = append(s.burstSpawns, map[string]any{"a": "Spawn", "id": -1, "peer": map[string]any{"addr": "?", "port": 0}, "mh": h(b), "sh": "unknown"})
+			s.mu.Unlock()
+			return
+		}
+		sp := map[string]any{"a": "Spawn", "id": id, "peer": s.peerDesc(d, peer), "mh": h(b), "sh": h(d.b)}
+		s.mu.Lock()
+		s.burstSpawns = append(s.burstSpawns, sp)
+		s.mu.Unlock()
+		time.Sleep(2 * time.Millisecond) // the handler outlives the next reads
+		fin := map[string]any{"a": "Finish", "id": id, "mh": h(enc()), "sh": h(d.b)}
+		s.mu.Lock()
+		s.burstFin = append(s.burstFin, fin)
+		s.mu.Unlock()
+		return
+	}
 	b := enc()
 	id := -1
 	var d *dgram
@@ -679,6 +729,81 @@ func envInt(k string, d int) int {
 	return d
 }
 
+// burstRun: n datagrams are already in the socket when Serve starts; the loop reads them back to back while the handler
+// goroutines it starts are still on their way (no scheduler in between, real time). What was observed is written down in
+// the order the specification has for a single loop: every read, followed by the handler invocations that carry that
+// datagram's message.
+func (s *sim) burstRun(n int) {
+	s.burst = true
+	s.loops = 1
+	s.closeCh = make(chan struct{})
+	kinds := []string{"valid", "valid", "valid", "valid", "undec", "empty", "valid"}
+	senders := []string{"ip", "noip", "zeroip", "ip", "ip"}
+	for i := 0; i < n; i++ {
+		s.arrive(kinds[s.rng.Intn(len(kinds))], senders[s.rng.Intn(len(senders))], 1024+s.rng.Intn(60000))
+	}
+	ret := make(chan error, 1)
+	if s.v4 {
+		srv, err := server4.NewServer("", nil, func(conn net.PacketConn, peer net.Addr, m *dhcpv4.DHCPv4) {
+			s.handle(conn, peer, m.ToBytes)
+		}, server4.WithConn(s))
+		if err != nil {
+			panic(err)
+		}
+		go func() { ret <- srv.Serve() }()
+	} else {
+		srv, err := server6.NewServer("", nil, func(conn net.PacketConn, peer net.Addr, m dhcpv6.DHCPv6) {
+			s.handle(conn, peer, m.ToBytes)
+		}, server6.WithConn(s))
+		if err != nil {
+			panic(err)
+		}
+		go func() { ret <- srv.Serve() }()
+	}
+	for k := 0; k < 2000; k++ { // until the socket is empty
+		s.mu.Lock()
+		left := len(s.q)
+		s.mu.Unlock()
+		if left == 0 {
+			break
+		}
+		time.Sleep(time.Millisecond)
+	}
+	time.Sleep(20 * time.Millisecond) // handlers that were started late
+	s.burstWG.Wait()
+	s.mu.Lock()
+	reads, spawns, fins := s.burstReads, s.burstSpawns, s.burstFin
+	s.mu.Unlock()
+	used := map[int]bool{}
+	for _, id := range reads {
+		s.trace = append(s.trace, map[string]any{"a": "ReadCall", "lp": 1}, map[string]any{"a": "Read", "id": id, "lp": 1})
+		for i, sp := range spawns {
+			if sp["id"] == id && !used[i] {
+				used[i] = true
+				s.trace = append(s.trace, sp)
+			}
+		}
+	}
+	s.trace = append(s.trace, map[string]any{"a": "ReadCall", "lp": 1})
+	for i, sp := range spawns { // invocations that belong to no datagram that was read
+		if !used[i] {
+			s.trace = append(s.trace, sp)
+		}
+	}
+	for _, f := range fins {
+		s.trace = append(s.trace, f)
+	}
+	s.trace = append(s.trace, map[string]any{"a": "Close"})
+	s.Close()
+	r := "closed"
+	select {
+	case <-ret:
+	case <-time.After(5 * time.Second):
+		r = "never"
+	}
+	s.trace = append(s.trace, map[string]any{"a": "Return", "lp": 1, "ret": r}, map[string]any{"a": "End"})
+}
+
 func TestServerSim(t *testing.T) {
 	outPath := os.Getenv("VH_OUT")
 	if outPath == "" {
@@ -744,5 +869,16 @@ func TestServerSim(t *testing.T) {
 		one(false, 1, "soak", nil, 40)
 	}
 	soak = 0
+	// bursts: 8 ... 120 datagrams queued before the loop gets to them
+	for k, n := range []int{8, 20, 40, 40, 80, 120} {
+		for _, v4 := range []bool{true, false} {
+			id++
+			s := &sim{v4: v4, loops: 1, rng: rand.New(rand.NewSource(seed*104729 + int64(id) + int64(k)))}
+			s.burstRun(n)
+			b, _ := json.Marshal(map[string]any{"id": id, "v4": v4, "loops": 1, "mode": "burst", "ev": s.trace})
+			w.Write(b)
+			w.WriteByte('\n')
+		}
+	}
 	fmt.Println("sims", id)
 }
